@@ -799,7 +799,7 @@ pub fn c05() -> Check {
         rule: "formed clusters of 3..=6 (quick) / 3..=10 (thorough) renewable instances with notify_down_members and announce-to-down (num_members >= n) are partitioned (side sizes 1..n-1 cycled by case index, members of the sides seeded; every 5th case isolates a single member, both ways or inbound only), held until every cross pair is mutually Down (premise, else inconclusive), healed at a seeded instant. Oracle: full mutual view under current identities within 4A+(4n+4) periods; told-down instances report Rejoin with a winning identity, never Defunct, then Active. Distinct by (n, shape, A, heal offset).",
         assumptions: &["announce-to-down num_members >= n so that every Down record is announced to each period (with fewer, which record is picked is random and no finite bound is deterministic)"],
         required: &["partitions_healed", "instances_renewed", "split_cases", "asymmetric_cases"],
-        workloads: vec![Workload { name: "partition", f: c05_case, quick: 320, thorough: 32_000, flav: Flav::Checked }],
+        workloads: vec![Workload { name: "partition", f: c05_case, quick: 3_200, thorough: 200_000, flav: Flav::Checked }],
         exhaustive: false,
     }
 }
